@@ -37,7 +37,7 @@ class OsuToQua(ConvertBase):
         qua.mode = QuaMapMode.get_mode(int(osu.circle_size))
         qua.artist = osu.artist
         qua.creator = osu.creator
-        qua.tags = osu.tags
+        qua.tags = list(osu.tags)
         qua.difficulty_name = osu.version
         qua.background_file = osu.background_file_name
         qua.song_preview_time = osu.preview_time
